@@ -204,21 +204,27 @@ func sinkFrame(in []byte) {
 
 // session states for sinkSession
 var c09States = []struct {
-	name   string
-	cfg    sessmc.Config
-	prefix []*sessmc.Event
+	name     string
+	cfg      sessmc.Config
+	prefix   []*sessmc.Event
+	gridOnly bool // used with the sequence-field grid only (not with every mutant)
 }{
-	{"latent", sessmc.Config{}, nil},
-	{"logon-acceptor", sessmc.Config{}, []*sessmc.Event{sessmc.EvConnect()}},
-	{"logon-initiator", sessmc.Config{Initiator: true}, []*sessmc.Event{sessmc.EvConnect()}},
-	{"normal", sessmc.Config{}, []*sessmc.Event{sessmc.EvConnect(), sessmc.EvLogon(0, 0, "")}},
-	{"recovering", sessmc.Config{}, []*sessmc.Event{sessmc.EvConnect(), sessmc.EvLogon(0, 0, ""), sessmc.EvIn("D", 2, false)}},
-	{"pending", sessmc.Config{}, []*sessmc.Event{sessmc.EvConnect(), sessmc.EvLogon(0, 0, ""), sessmc.EvTimeout(quickfix.VerifPeerTimeout)}},
-	{"pending+recovering", sessmc.Config{}, []*sessmc.Event{sessmc.EvConnect(), sessmc.EvLogon(0, 0, ""), sessmc.EvIn("D", 2, false), sessmc.EvTimeout(quickfix.VerifPeerTimeout)}},
-	{"logout", sessmc.Config{Initiator: true}, []*sessmc.Event{sessmc.EvConnect(), sessmc.EvLogon(0, 0, ""), sessmc.EvStop()}},
-	{"not-session-time", sessmc.Config{Extra: map[string]string{"StartTime": "00:00:00", "EndTime": "00:00:01", "Weekdays": "Mon"}}, nil},
-	{"normal+dictionary", sessmc.Config{BeginString: "FIX.4.4", DataDictionary: specDir + "FIX44.xml"}, []*sessmc.Event{sessmc.EvConnect(), sessmc.EvLogon(0, 0, "")}},
-	{"normal+fixt", sessmc.Config{BeginString: "FIXT.1.1", TransportDD: specDir + "FIXT11.xml", AppDD: specDir + "FIX50SP2.xml"}, []*sessmc.Event{sessmc.EvConnect(), sessmc.EvLogon(0, 0, "")}},
+	{"latent", sessmc.Config{}, nil, false},
+	{"logon-acceptor", sessmc.Config{}, []*sessmc.Event{sessmc.EvConnect()}, false},
+	{"logon-initiator", sessmc.Config{Initiator: true}, []*sessmc.Event{sessmc.EvConnect()}, false},
+	{"normal", sessmc.Config{}, []*sessmc.Event{sessmc.EvConnect(), sessmc.EvLogon(0, 0, "")}, false},
+	{"recovering", sessmc.Config{}, []*sessmc.Event{sessmc.EvConnect(), sessmc.EvLogon(0, 0, ""), sessmc.EvIn("D", 2, false)}, false},
+	{"pending", sessmc.Config{}, []*sessmc.Event{sessmc.EvConnect(), sessmc.EvLogon(0, 0, ""), sessmc.EvTimeout(quickfix.VerifPeerTimeout)}, false},
+	{"pending+recovering", sessmc.Config{}, []*sessmc.Event{sessmc.EvConnect(), sessmc.EvLogon(0, 0, ""), sessmc.EvIn("D", 2, false), sessmc.EvTimeout(quickfix.VerifPeerTimeout)}, false},
+	{"logout", sessmc.Config{Initiator: true}, []*sessmc.Event{sessmc.EvConnect(), sessmc.EvLogon(0, 0, ""), sessmc.EvStop()}, false},
+	{"not-session-time", sessmc.Config{Extra: map[string]string{"StartTime": "00:00:00", "EndTime": "00:00:01", "Weekdays": "Mon"}}, nil, false},
+	{"normal+dictionary", sessmc.Config{BeginString: "FIX.4.4", DataDictionary: specDir + "FIX44.xml"}, []*sessmc.Event{sessmc.EvConnect(), sessmc.EvLogon(0, 0, "")}, false},
+	{"normal+fixt", sessmc.Config{BeginString: "FIXT.1.1", TransportDD: specDir + "FIXT11.xml", AppDD: specDir + "FIX50SP2.xml"}, []*sessmc.Event{sessmc.EvConnect(), sessmc.EvLogon(0, 0, "")}, false},
+	// a replay was abandoned on the previous connection: the application had sent a value containing the field
+	// separator, the stored bytes do not parse back, the peer's ResendRequest ended that connection
+	{"reconnected-after-failed-replay", sessmc.Config{}, []*sessmc.Event{sessmc.EvConnect(), sessmc.EvLogon(0, 0, ""),
+		{K: "send", Name: "send(58 with SOH)", Send: []fixscan.Field{{11, "ID"}, {55, "X"}, {58, "a\x01b"}}}, sessmc.EvFlush(),
+		sessmc.EvIn("2", 0, false, fixscan.Field{7, "1"}, fixscan.Field{16, "0"}), sessmc.EvConnect(), sessmc.EvLogon(0, 0, "")}, true},
 }
 
 // sinkSession: feed the bytes to a session in each state, then a well-formed TestRequest.
@@ -506,7 +512,7 @@ func c09ForEach(tier string, shard, shards int, from int64, f func(idx int64, si
 			emit("frame", in, desc, func(d *c09Dicts) string { sinkFrame(append(append([]byte("xx"), in...), in...)); return "" })
 			for sti := range c09States {
 				sti := sti
-				if quick && strings.Contains(m.desc, "+") && sti%3 != 0 {
+				if c09States[sti].gridOnly || (quick && strings.Contains(m.desc, "+") && sti%3 != 0) {
 					continue
 				}
 				emit("session:"+c09States[sti].name, in, desc, func(d *c09Dicts) string { return sinkSession(in, sti) })
